@@ -180,8 +180,23 @@ def zero (t : PageTable) : PageTable :=
 /-- `is_empty(&self)`: `self.iter().all(|entry| entry.is_unused())`. -/
 def isEmpty (t : PageTable) : Bool := iterRefs.all (fun r => Entry.isUnused (t.read r))
 
-/-- The table as a function of the slot number (what the memory image is made of). -/
-def toFun (t : PageTable) : Nat → BitVec 64 := t.read
+/-- `size_of::<PageTable>()`: `repr(C)` array of 512 `repr(transparent)` `u64`s, rounded up to the
+alignment. -/
+def SIZE_OF : Nat := 512 * 8
+
+/-- `align_of::<PageTable>()`: `#[repr(align(4096))]`. -/
+def ALIGN_OF : Nat := 4096                             -- GENERATED-CANDIDATE
+
+/-- `size_of::<PageTableEntry>()`: `repr(transparent)` over `u64`. -/
+def ENTRY_SIZE_OF : Nat := 8
+
+/-- Byte `o` of the table's memory (`repr(C)`: element `i` of the array at byte `8 i`; x86_64 is
+little-endian: byte `k` of a `u64` holds bits `8k … 8k+7`). -/
+def byteAt (t : PageTable) (o : Nat) : BitVec 8 :=
+  ((t.read (o / 8)) >>> (8 * (o % 8))).setWidth 8
+
+/-- A table from a function of the slot number. -/
+def ofFn (f : Nat → BitVec 64) : PageTable := ⟨Vector.ofFn (fun i : Fin 512 => f i.val)⟩
 
 end PageTable
 
